@@ -83,7 +83,7 @@ Definition dispatch (req : sx) : sx :=
   let a1 := nthx 1 l in let a2 := nthx 2 l in let a3 := nthx 3 l in
   (* spec: encoders, domain checks, expected observations *)
   if op =? "enc_notes" then SB (encode_notes (scfg_of (g_cfg a1)) (g_notes a2))
-  else if op =? "wf_notes" then sx_bool (wf_notes (scfg_of (g_cfg a1)) (g_notes a2))
+  else if op =? "wf_notes" then sx_bool (wf_cfg (g_cfg a1) && wf_notes (scfg_of (g_cfg a1)) (g_notes a2))
   else if op =? "expected" then
     sx_iter (expected_notes (scfg_of (g_cfg a1)) (gI a2) (g_notes a3), None)
   else if op =? "enc_stabs" then SB (encode_stabs (gbool a1) (g_stabs a2))
